@@ -7,8 +7,8 @@ from checks.c02_server_results import check_outcomes, shrink as shrink2
 
 ID = 'C04'
 LEVEL = 'exploration'
-NEEDS = ('threads', 'aio')
-PROC_READY = False
+NEEDS = ('threads', 'aio', 'proc')
+PROC_READY = True
 QUICK = dict(runs=5000, wall=85)
 THOROUGH = dict(runs=300000, wall=1500)
 RULE = ('scenario = servlet tree (leaves with/without batching, Sequential, Ensemble fail_fast on/off, Switch), Server or AsyncServer, '
